@@ -13,6 +13,7 @@ for g in gen/gen_*.py; do
     gen/gen_routing_sites.py) python3 "$g" /repo coq/RoutingSites.v ;;
     gen/gen_tx_order.py) python3 "$g" /repo coq/TxOrder.v ;;
     gen/gen_itemcache_locks.py) python3 "$g" /repo coq/ItemCacheLocks.v ;;
+    gen/gen_startup_order.py) python3 "$g" /repo coq/StartupOrder.v ;;
   esac
 done
 ./lib/mkcoqproject.sh
